@@ -9,7 +9,10 @@ use core::pin::Pin;
 use core::task::{Context, Poll, Waker};
 use emit::Frame;
 
-pub fn sym_panicking() -> bool { kani::any() }
+/// The "are we unwinding" flag is drawn by the HARNESS (so that concrete playback stays in step) and read
+/// by the stub. (distinctive non-zero initialiser, see env.rs)
+static mut PANICKING: u32 = 0x5EED_0021;
+pub fn sym_panicking() -> bool { unsafe { PANICKING == 1 } }
 
 struct Ready;
 impl Future for Ready {
@@ -35,20 +38,38 @@ impl emit_core::ctxt::Ctxt for CountCtxt {
 #[kani::stub(std::thread::panicking, sym_panicking)]
 pub fn c03_q_exit_while_panicking() {
     let ctxt = CountCtxt { depth: core::cell::Cell::new(0), enters: core::cell::Cell::new(0), exits: core::cell::Cell::new(0) };
+    let panicking: bool = kani::any();
     let api: u8 = kani::any();
     kani::assume(api <= 3);
-    let mut frame = Frame::push(&ctxt, emit_core::empty::Empty);
-    match api {
-        0 => { let g = frame.enter(); assert!(ctxt.depth.get() == 1); drop(g); }
-        1 => frame.call(|| { assert!(ctxt.depth.get() == 1); }),
-        2 => { frame.with(|_| ()); }
-        _ => {
-            let mut fut = frame.in_future(Ready);
-            let mut cx = Context::from_waker(Waker::noop());
-            let _ = unsafe { Pin::new_unchecked(&mut fut) }.poll(&mut cx);
+    unsafe { PANICKING = panicking as u32; }
+    // Under Kani (no unwinding) the frame is left on the normal path while `thread::panicking()` reports
+    // `panicking`; in the NATIVE replay (cfg(test)) a real panic unwinds through the entered frame when `panicking` is set.
+    let boom = || { if cfg!(test) && panicking { panic!("replay: unwinding through an entered frame"); } };
+    let run = || {
+        let mut frame = Frame::push(&ctxt, emit_core::empty::Empty);
+        match api {
+            0 => { let g = frame.enter(); assert!(ctxt.depth.get() == 1); boom(); drop(g); }
+            1 => frame.call(|| { assert!(ctxt.depth.get() == 1); boom(); }),
+            2 => { frame.with(|_| boom()); }
+            _ => {
+                struct Boom<F: Fn()>(F);
+                impl<F: Fn()> Future for Boom<F> {
+                    type Output = ();
+                    fn poll(self: Pin<&mut Self>, _: &mut Context<'_>) -> Poll<()> { (self.0)(); Poll::Ready(()) }
+                }
+                let mut fut = frame.in_future(Boom(&boom));
+                let mut cx = Context::from_waker(Waker::noop());
+                let _ = unsafe { Pin::new_unchecked(&mut fut) }.poll(&mut cx);
+            }
         }
-    }
+    };
+    // `cfg(test)` = the native concrete-playback build (cargo kani playback runs `cargo test`); verification builds are not test builds
+    #[cfg(not(test))]
+    run();
+    #[cfg(test)]
+    { let _ = std::panic::catch_unwind(std::panic::AssertUnwindSafe(run)); }
     assert!(ctxt.depth.get() == 0, "leaving a frame restores what was visible before, also while a panic is unwinding");
     assert!(ctxt.enters.get() == 1 && ctxt.exits.get() == 1, "every enter is matched by an exit");
-    kani::cover!(api == 3, "future poll");
+    kani::cover!(api == 3 && panicking, "future poll while unwinding");
+    kani::cover!(!panicking, "normal exit");
 }
